@@ -36,3 +36,14 @@ pub fn scratch_dir() -> tempfile::TempDir {
     }
     tempfile::tempdir().expect("tempdir")
 }
+
+/// temp dir on tmpfs when there is one (the engine fsyncs several times per node)
+pub fn fast_tempdir() -> tempfile::TempDir {
+    let shm = std::path::Path::new("/dev/shm");
+    if shm.is_dir() {
+        if let Ok(d) = tempfile::tempdir_in(shm) {
+            return d;
+        }
+    }
+    tempfile::tempdir().expect("tempdir")
+}
